@@ -22,6 +22,7 @@ import (
 	"github.com/olric-data/olric/internal/discovery"
 	"github.com/olric-data/olric/internal/protocol"
 	"github.com/olric-data/olric/internal/stats"
+	"github.com/olric-data/olric/internal/verifhook"
 	"golang.org/x/sync/errgroup"
 )
 
@@ -113,6 +114,9 @@ func (dm *DMap) deleteOnOtherNodes(hkey uint64, key string) error {
 func (dm *DMap) deleteOnCluster(hkey uint64, key string, f *fragment) error {
 	err := dm.deleteOnOtherNodes(hkey, key)
 	if err != nil {
+		return err
+	}
+	if err := verifhook.Fire("delete.others", dm.s.rt.This().String(), hkey); err != nil {
 		return err
 	}
 
